@@ -40,6 +40,20 @@ Theorem C10_no_early_drop : forall ttl tk acts k t0, 0 <= tk ->
 Proof. exact no_early_drop_lemma. Qed.
 Print Assumptions C10_no_early_drop.
 
+(* P1 for the schedule the property names ("however expiry timers interleave with refreshes"):
+   after ANY history, a refresh for k followed by the completion of ANY expiry callback (fresh,
+   stale, of this key or another, whatever time it read) leaves k stored with the refresh's
+   lifetime. Harness action X places the refresh between the critical sections of the running
+   callback and is judged against this sequence (Driver/C10drv.v). 2 * tk < ttl: the clock does
+   not move by a whole lifetime inside one addTemplate (the collector's ttl is >= 1 s). *)
+Theorem C10_refresh_during_callback : forall ttl tk acts k g c, 0 <= tk -> 2 * tk < ttl ->
+  let t0 := g_now (grun_tick tk acts) in
+  exists p, get_tpl k (run_tick ttl tk (acts ++ [ATemplate k g; ACbEnd c])) = Some p /\
+            t_expiry p = t0 + ttl /\
+            probe (run_tick ttl tk (acts ++ [ATemplate k g; ACbEnd c])) k = Some (nrec (t_tag p)).
+Proof. exact refresh_during_callback_lemma. Qed.
+Print Assumptions C10_refresh_during_callback.
+
 (* whatever is stored is the last accepted template with the expiry that acceptance gave it *)
 Theorem C10_stored_is_last_accept : forall ttl tk acts k p, 0 <= tk ->
   get_tpl k (run_tick ttl tk acts) = Some p ->
@@ -159,3 +173,13 @@ Example C10_nonvacuous_tick :
   last_accept_tick 1 ex_expire k0 = Some 0 /\ 0 + T + 1 <= g_now (grun_tick 1 ex_expire) /\
   inflight (run_tick T 1 ex_expire) = [] /\ get_tpl k0 (run_tick T 1 ex_expire) = None.
 Proof. vm_compute. repeat split; try reflexivity. discriminate. Qed.
+
+(* the refresh-during-callback schedule is reachable with the callback enabled and its deadline
+   check passed (it read the clock at the deadline): without the refresh it deletes, with it it
+   does not; X parses to that sequence *)
+Definition ex_refresh_cb : list act := [ATemplate k0 0; AAdvance T; AFire 0; ACbBegin 0].
+Example C10_nonvacuous_refresh_during_callback :
+  get_tpl k0 (run T (ex_refresh_cb ++ [ACbEnd 0])) = None /\
+  get_tpl k0 (run T (ex_refresh_cb ++ [ATemplate k0 0; ACbEnd 0])) = Some (mkTpl 0 (T + T) 0) /\
+  c10_parse_acts (tokens "X 0 1 256 0") = Some [ATemplate (1%N, 256%N) 0%N; ACbEnd 0].
+Proof. vm_compute. repeat split; reflexivity. Qed.
